@@ -36,6 +36,16 @@ DefsQquick == {[cps |-> c, feats |-> x[1], ds |-> x[2], fall |-> x[3], dall |-> 
             c \in {{}, {0}, {0, 1}},
             x \in {<<{}, {}, FALSE, FALSE>>, <<{0}, {<<1, 1>>}, FALSE, FALSE>>, <<{}, {}, TRUE, TRUE>>, <<{}, {}, FALSE, TRUE>>}}
 
+\* invalidating entries sharing URIs inside one table (three entries, sizes 1..3, ids 1..2), optionally
+\* mirrored in IFTX: exercises de-duplication together with the largest-intersection rule
+P3(c, n, m) == E(c, {}, {}, {}, FALSE, FALSE, m, n)
+TabsDup == {[compat |-> 1, tmpl |-> "A", entries |-> <<P3(c1, n1, m), P3(c2, n2, m), P3(c3, n3, m)>>] :
+              c1 \in {{0}, {0, 1}, {0, 1, 2}}, c2 \in {{0}, {0, 1}, {0, 1, 2}}, c3 \in {{0}, {0, 1}, {0, 1, 2}},
+              n1 \in {1, 2}, n2 \in {1, 2}, n3 \in {1, 2}, m \in {"part", "full"}}
+FontsDup == {[ift |-> t, iftx |-> NoT] : t \in TabsDup} \cup
+            {[ift |-> t, iftx |-> [compat |-> 2, tmpl |-> t.tmpl, entries |-> t.entries]] : t \in {x \in TabsDup : x.entries[1].fmt = "part"}}
+DefsDup == {[cps |-> c, feats |-> {}, ds |-> {}, fall |-> FALSE, dall |-> FALSE] : c \in {{0}, {0, 1, 2}, {1, 2}}}
+
 \* ---- chains for the extension loop ---------------------------------------
 G(c, k, i, m, n) == E(c, {}, {}, k, FALSE, i, m, n)
 TabsX == {[compat |-> 1, tmpl |-> "A", entries |-> <<a, b>>] :
